@@ -81,7 +81,7 @@ def make(name: str, *args):
 
         return LifecycleScenario()
     if name in ("C05", "C09", "C12"):
-        weights = {"C05": (3, 2), "C09": (3, 2), "C12": (3, 2)}[name]
+        weights = {"C05": (3, 2), "C09": (4, 2), "C12": (3, 2)}[name]
         parts = [(weights[0], WorldScenario(name)), (weights[1], ConcatScenario(name))]
         if name in ("C12", "C09"):
             from .survey import SurveyScenario
